@@ -28,6 +28,7 @@ def run(e, R, tier):
         S.r_shutdown_seq,
         B.r_kill_tree,
         P.r_spawn_fresh,
+        P.r_env_overlay_kept,
         P.r_exitcode,
         T.r_relaunch,
         SC.r_scn_wakeprim,
